@@ -192,6 +192,17 @@ def gen_cases(tier, seed):
         d = _asan_twin(c, j)
         if d:
             yield d
+    # systems beyond the width of the fixed-column atom and residue number fields (PDB: 5 columns, GRO: 5 columns): every
+    # format once in the thorough tier, the two text formats with numbered atoms plus two rotating others in the quick tier
+    huge = list(EXT_STREAM) if tier == "thorough" else ["pdb", "gro"] + [EXT_STREAM[(seed * 2 + k) % len(EXT_STREAM)] for k in range(2)]
+    for k, ext in enumerate(huge):
+        c = dict(i=i + n + k, seed=common.case_seed(seed, "C01huge", k), ext=ext, nf=1, na=100005, mag=9.0, dist="spread", sign="+",
+                 time="default", cell=("ortho", "none")[k % 2] if FMT[ext]["canon"] != "lammpstrj" else "ortho", cellscale=20.0, top="ident")
+        if FMT[ext]["canon"] == "gro":
+            c["prec"] = 3
+        if FMT[ext]["canon"] == "pdb":
+            c.update(ter=True, header=True, bf="none")
+        yield c
 
 
 def _topology(case):
@@ -447,6 +458,10 @@ def _roundtrip(ctx, case, T, Lt, key, frames=None, mon="roundtrip"):
             ctx.violation(mon + ".cell", key("cell", "invented"), f"{case['ext']}: saved without unit cell, loaded with lengths {Lt.unitcell_lengths[0].tolist()} angles {Lt.unitcell_angles[0].tolist()}")
         return good
     if Lt.unitcell_lengths is None:
+        if canon == "pdb" and T.n_atoms / max(float(T.unitcell_volumes.min()), 1e-30) > 900.0:
+            # load_pdb documents that a CRYST1 cell holding more than 1000 atoms per nm^3 is taken for a dummy record and dropped
+            ctx.skip(mon + ".cell", "PDB: more than ~1000 atoms per nm^3 of cell volume: documented dummy-CRYST1 heuristic drops the cell", nf)
+            return good
         ctx.violation(mon + ".cell", key("cell", "lost"), f"{case['ext']}: saved with a unit cell, loaded without")
         return False
     L0 = T.unitcell_lengths.astype(np.float64)[fsel]
